@@ -251,6 +251,12 @@ func c14RequestOf(class string, mk func(method, url, body string) *http.Request)
 		return mk("GET", "/nope", "")
 	case "nf_method":
 		return mk("DELETE", "/items", "")
+	case "nf_options":
+		return mk("OPTIONS", "/items", "")
+	case "nf_head":
+		return mk("HEAD", "/items?n=1", "")
+	case "inv_nobody":
+		return mk("POST", "/items?n=1", "")
 	case "inv_body":
 		return mk("POST", "/items?n=1", `{"name":1}`)
 	case "inv_param":
@@ -449,7 +455,13 @@ func c14Run(c *Case) []any {
 		if c14IsG(tc.Cfg.ReqClass) {
 			router = c14RouterG()
 		}
-		gate = openapi3filter.NewValidator(router, opts...).Middleware(handler)
+		v := openapi3filter.NewValidator(router, opts...)
+		gate = v.Middleware(handler)
+		// one Validator, two wrappers: the request goes through the wrapper of the handler under test
+		_ = v.Middleware(http.HandlerFunc(func(w http.ResponseWriter, _ *http.Request) {
+			log = append(log, map[string]any{"ev": "Other"})
+			w.WriteHeader(299)
+		}))
 	}
 	primerReq := func() *http.Request {
 		class := "valid_post"
